@@ -3,7 +3,7 @@
    and the objects the theorems talk about take non-trivial values there. *)
 From Coq Require Import QArith Qcanon ZArith List Arith Lia.
 From Verif.lib Require Import Bsp.
-From Verif.C02 Require Import Proofs Proofs_ref Proofs_ndu Proofs_single Proofs_deriv.
+From Verif.C02 Require Import Proofs Proofs_ref Proofs_ndu Proofs_single Proofs_deriv Proofs_tp.
 Import ListNotations.
 Open Scope Qc_scope.
 
@@ -100,3 +100,25 @@ Example ex_derivs_knot : map (map this) (active_deriv ex_kv 2 (q 2 4) 3) =
 Proof. vm_compute. reflexivity. Qed.
 Example ex_acoef : map (fun j => this (acoef ex_kv 2 1 2 j)) (seq 0 3) = [0; -24; 8]%Q /\ Ffac 2 2 = 2%Z /\ (2 <= 2)%nat.
 Proof. split; [vm_compute; reflexivity|]. split; [reflexivity|lia]. Qed.
+
+(* spline_ev_* / tp_eval_*: a coefficient vector of the right length, a two-axis case (degree 2 with
+   the double knot x degree 1) that meets axes_ok, with non-trivial values and a mixed derivative *)
+Definition ex_c := map (fun z => q z 1) [1; -2; 3; 0; 5; -1]%Z.
+Example ex_c_len : length ex_c = numdofs ex_kv 2.
+Proof. vm_compute. reflexivity. Qed.
+Example ex_spline_ev : this (spline_ev ex_kv 2 0 ex_c (q 3 8)) = (13 # 8)%Q /\ this (spline_ev ex_kv 2 1 ex_c (q 3 8)) = (-2)%Q.
+Proof. vm_compute. split; reflexivity. Qed.
+Definition ex_kv1 := map (fun z => q z 2) [0;0;1;2;2]%Z.
+Example ex_kv1_ok : kv_ok ex_kv1 1.
+Proof. apply open_kv_ok_l. vm_compute. reflexivity. Qed.
+Example ex_axes_ok : axes_ok [(ex_kv, 2%nat); (ex_kv1, 1%nat)] [q 3 8; q 1 4].
+Proof.
+  cbn [axes_ok]. split; [exact ex_kv_ok|]. split; [exact (proj1 ex_domain)|]. split; [exact (proj2 ex_domain)|].
+  split; [exact ex_kv1_ok|]. split; [apply qleb_iff; vm_compute; reflexivity|].
+  split; [apply qleb_iff; vm_compute; reflexivity|exact I].
+Qed.
+Definition ex_c2 (idx : list nat) : Qc :=
+  match idx with [a; b] => q (Z.of_nat (a * a + 3 * b + a * b)) 1 | _ => 0 end.
+Example ex_tp_values : this (tp_eval [(ex_kv, 2%nat); (ex_kv1, 1%nat)] [0%nat; 0%nat] ex_c2 [q 3 8; q 1 4]) = (119 # 16)%Q
+                    /\ this (tp_eval [(ex_kv, 2%nat); (ex_kv1, 1%nat)] [1%nat; 1%nat] ex_c2 [q 3 8; q 1 4]) <> 0%Q.
+Proof. vm_compute. split; [reflexivity|discriminate]. Qed.
